@@ -310,6 +310,7 @@ fn run_case(peer: &mut B, kc: &ExtKeychain, root: &str, n: usize, c: &Value) -> 
 	o["nnew"] = json!(seen.newvals.len());
 	o["ntx"] = json!(seen.ntx);
 	o["readable"] = json!(seen.ok);
+	let mut seen_ok = seen.ok;
 
 	// ---- late lock: the recipient answers, the sender finalizes (selects and locks now)
 	if flow == "late" {
@@ -321,6 +322,7 @@ fn run_case(peer: &mut B, kc: &ExtKeychain, root: &str, n: usize, c: &Value) -> 
 					let (r, d) = guarded(|| foreign::finalize_tx(&mut w, None, &s2, false));
 					res_fields(&mut fin, &r, d);
 					let seen = look(&mut w, &index, &injected);
+					seen_ok = seen_ok && (seen.ok || matches!(r, Outcome::Panic(_)));
 					fin["nchg"] = json!(seen.changed.len());
 					fin["nnew"] = json!(seen.newvals.len());
 					fin["ntx"] = json!(seen.ntx);
@@ -347,7 +349,14 @@ fn run_case(peer: &mut B, kc: &ExtKeychain, root: &str, n: usize, c: &Value) -> 
 		}
 	}
 	drop(w);
-	o["nctx"] = json!(count_contexts(&dir));
+	let nctx = count_contexts(&dir);
+	o["nctx"] = json!(nctx);
+	// a store the harness cannot read back is a harness failure, never data (after a panic of
+	// the code under test the store is not judged, so an unreadable one is tolerated there)
+	if (nctx < 0 || !seen_ok) && o["res"] != json!("panic") {
+		o["detail"] = json!(format!("store not readable after the call (nctx {}, readable {}); was: {} {}", nctx, seen_ok, o["res"], o["detail"]));
+		o["res"] = json!("skip");
+	}
 	let _ = std::fs::remove_dir_all(&dir);
 	o
 }
